@@ -6,6 +6,7 @@ package c20
 import (
 	"fmt"
 	"math"
+	"math/rand"
 	"sort"
 	"strings"
 	"sync"
@@ -57,6 +58,7 @@ type shared struct {
 	g                  graph.IntGraph
 	bg                 graph.BiGraph
 	hist               *stats.LinearHist
+	loghist            *stats.LogHist
 	kdes               []*stats.KDE
 	// results of earlier calls that are themselves shared and then used concurrently:
 	// fitted functions, quantile functions, derived graphs
@@ -108,6 +110,10 @@ func build(in *Inputs) *shared {
 	s.hist = stats.NewLinearHist(lo, hi+(hi-lo)*0.01, 8)
 	for _, x := range in.X1 {
 		s.hist.Add(x)
+	}
+	s.loghist = stats.NewLogHist(10, 2, 1000)
+	for _, x := range in.Pos {
+		s.loghist.Add(x * 3)
 	}
 	for k := 0; k < 3; k++ {
 		kd := &stats.KDE{Sample: stats.Sample{Xs: s.x1, Weights: s.w}, Kernel: stats.KDEKernel(k), Bandwidth: (hi - lo) * 0.3}
@@ -317,6 +323,18 @@ func registry() []entry {
 	})
 	add("Histogram", func(s *shared) string {
 		return fb(stats.HistogramQuantile(s.hist, s.in.Q)) + fb(stats.HistogramIQR(s.hist)) + fb(s.hist.BinToValue(2.5))
+	})
+	add("LogHist/DeltaDist/Rand", func(s *shared) string {
+		lh := s.loghist
+		dd := stats.DeltaDist{T: s.in.Q}
+		// every caller brings its own random source; the distributions are the shared part
+		r := rand.New(rand.NewSource(int64(s.in.Cnt) + 7))
+		draw := stats.Rand(stats.TDist{V: 3})
+		drawK := stats.Rand(s.kdes[0])
+		drawN := stats.Rand(stats.NormalDist{Mu: 1, Sigma: 2})
+		lo, hi := lh.Bounds()
+		return fb(stats.HistogramQuantile(lh, s.in.Q)) + fb(lh.At(2.5)) + fb(lo) + fb(hi) + fb(lh.BinToValue(1.5)) +
+			fb(dd.CDF(0.5)) + fb(dd.PDF(s.in.Q)) + fb(stats.InvCDF(dd)(0.3)) + fb(draw(r)) + fb(drawK(r)) + fb(drawN(r))
 	})
 	// ---- mathx
 	add("mathx", func(s *shared) string {
